@@ -18,6 +18,7 @@ def run(ctx):
     T.run_replays(ctx, T.C01, q)
     T.run_random(ctx, T.C01, q)
     T.run_history(ctx, q)
+    T.run_local_global(ctx, T.LG_C01 - {'RealTimeOrder'}, q)
     return ctx.finish(rule='exhaustive TLC of TSO.tla (2 members, admin resets, leader-key deletion, hand-overs, logical overflow counts); '
                            'TLC -simulate behaviours replayed on real AllocatorManager/Member objects (etcd transaction gate, substituted '
                            'clock), state compared per step; concurrent request histories from a real in-process server with resets and '
